@@ -585,6 +585,8 @@ def _run_probe(w, build, op, n, ctx, desc, fault):
     # ---- later operations behave normally
     if not plan.target_is_new:
         _followup(w, target, now, ctx, desc, sig)
+        if w.conn is not None and target is t:
+            _commit_and_reload(w, t, ctx, desc, sig, n)
     o = before = wk = target = None
     del conts, plan
     del t
@@ -663,6 +665,37 @@ def _judge(w, name, plan, before, now, outcome):
     if not (lo <= set(now) <= hi):
         return None
     return 'after' if now == final else ('before' if now == before else 'between')
+
+
+def _commit_and_reload(w, t, ctx, desc, sig, n):
+    """stored mode: whatever the failed call and the follow-up workload did to the container was announced to the data
+    manager - a commit now, and a fresh reader, reproduce what the writer sees (C04's oracle under an injected
+    fault: a node that changed on the way to the failure but did not register is written nowhere)"""
+    from . import minizodb as Z
+    if w.is_tree:
+        wk = walker.walk(t, w.is_map, check=False)
+        f16 = walker.f16_pending(wk)
+        del wk
+        if f16:
+            return          # open finding F16: this shape does not survive a commit, fault or no fault
+    want = w.contents(t)
+    try:
+        w.conn.commit()
+        r = Z.Connection(w.conn.storage)
+        rt = r.get(t._p_oid)
+        got = w.contents(rt)
+        if w.is_tree:
+            rt._check()
+            wk = walker.walk(rt, w.is_map)
+            del wk
+    except (AssertionError, walker.WalkError, KeyError, TypeError, ValueError, RuntimeError, SystemError, IndexError) as e:
+        ctx.mismatch('%s (fault %d): after the call, a follow-up workload and a commit, a fresh reader cannot use the stored '
+                     'container: %s: %s' % (desc, n, type(e).__name__, e), dict(sig, what='stored-unusable'), recoverable=False)
+        return
+    if got != want:
+        ctx.mismatch('%s (fault %d): after the call, a follow-up workload and a commit, a fresh reader sees %r, the writer %r '
+                     '(a node changed without registering)' % (desc, n, got, want), dict(sig, what='stored-differs'),
+                     recoverable=False)
 
 
 def _followup(w, t, now, ctx, desc, sig):
